@@ -255,3 +255,54 @@ def rf50(run):
     if n < 1:
         raise F.AnalysisBroken('no call of set_inline_reg_map found')
     return n
+
+
+# ---------------------------------------------------------------------------------------------
+# RF51: every block of a consolidated alloca area is placed at an offset rounded up to its own alignment
+# ---------------------------------------------------------------------------------------------
+
+def rf51(run):
+    from lib import linstate as LS
+    rule = 'RF51'
+    run.rule(rule, 'where constant allocas are laid out in one area (adjacent allocas in simplify_func, top allocas of inlined callees '
+                   'in process_inlines), on every path the running offset is rounded up to the alignment returned by '
+                   'get_alloca_size_align for this block before the block is placed — not only when a new maximal alignment '
+                   'appears: MIR_ALLOCA memory is aligned according to the target ABI')
+    tu = run.tu('mir')
+    n = 0
+    for fn, offv, alignv in (('simplify_func', 'overall_size', 'align'), ('process_inlines', 'curr_func_top_alloca_size', 'alloca_align')):
+        f = tu.func(fn)
+        run.functions_analysed.add(('mir', fn))
+        # the statement list that contains get_alloca_size_align (…, &alignv) followed by the advance offv += size
+        site = None
+        for comp in [x for x in f.walk() if x['k'] == 'CompoundStmt']:
+            ks = F.kids(comp)
+            gi = [i for i, st in enumerate(ks) if any(y['k'] == 'CallExpr' and y.get('callee') == 'get_alloca_size_align'
+                                                      and ('&' + alignv) in F.src(F.call_args(y)[1]).replace(' ', '') for y in F.walk(st))
+                  and st['k'] in ('BinaryOperator',)]
+            ai = [i for i, st in enumerate(ks) if st['k'] == 'CompoundAssignOperator' and st['op'] == '+=' and F.src(F.strip(st['c'][0])) == offv]
+            if gi and ai and gi[0] < ai[0]:
+                site = (ks, gi[0], ai[0])
+        if site is None:
+            raise F.AnalysisBroken('%s: the layout step (get_alloca_size_align … %s += size) was not found' % (fn, offv))
+        ks, g0, a0 = site
+        sym = LS.Sym()
+        st0 = {offv: LS.Lin({'OFF': 1})}
+        states = sym.run(ks[g0:a0], st0)
+        bad = None
+        for σ in states:
+            v = σ.get(offv)
+            al = σ.get(alignv)
+            ok = v is not None and al is not None and len(v.t) == 1 and v.c == 0 and list(v.t.values()) == [1] \
+                and list(v.t)[0].startswith('ru(') and list(v.t)[0].endswith(',%r)' % (al,))
+            if not ok and bad is None:
+                bad = v
+        n += 1
+        ok = bad is None and bool(states)
+        run.ob(rule, (fn,), ok, {'function': fn, 'paths': len(states), 'offset before the block is placed': [repr(σ.get(offv)) for σ in states][:4]})
+        if not ok:
+            run.violation(rule, f, 'placement of a block in the consolidated alloca area',
+                          '%s places a block at %s = [%s] on some path: the offset is not rounded up to the block\'s alignment (only when a '
+                          'larger alignment than before appears), so e.g. allocas of 16, 4 and 16 bytes put the third block at offset 20'
+                          % (fn, offv, bad), line=ks[a0]['l'])
+    return n
